@@ -27,19 +27,54 @@ func (c *ProxyCase) describe() string {
 }
 
 // ProxyLab wraps a socket lab with the real balancer.
-type ProxyLab struct{ L *lab.SocketLab }
+type ProxyLab struct {
+	L   *lab.SocketLab
+	Cli *Client
+}
 
 func NewProxyLab(pc config.PluginsConfig, backends int) (*ProxyLab, error) {
-	l, err := lab.NewSocketLab("round_robin", lab.SocketOpts{Backends: backends, Mutate: func(cfg *config.Config) { cfg.Plugins = pc }})
+	l, err := labRetry(func() (*lab.SocketLab, error) {
+		return lab.NewSocketLab("round_robin", lab.SocketOpts{Backends: backends, Mutate: func(cfg *config.Config) { cfg.Plugins = pc }})
+	})
 	if err != nil {
 		return nil, err
 	}
-	return &ProxyLab{L: l}, nil
+	return &ProxyLab{L: l, Cli: &Client{Addr: l.Addr}}, nil
 }
 
 func (p *ProxyLab) Close() {
+	p.Cli.Close()
 	_ = p.L.Server.Close() // see StubLab.Close
+	// The backends close their connections BEFORE the balancer's transports do: the TIME_WAIT sockets then
+	// sit on the accepting side (SO_REUSEADDR, harmless for later listeners) instead of blocking one
+	// ephemeral port per lab for 60 s on the dialling side.
+	for _, b := range p.L.Backends {
+		b.Close()
+	}
 	p.L.Close()
+}
+
+var refProxyLabs = map[string]*ProxyLab{}
+
+// RefProxyLab returns the shared reference lab (balancer + raw backends, chain without size_limit) for the
+// companions of ch and the given number of backends. The balancer runs without health checks, breaker or
+// rate limiter, so it carries nothing from one exchange to the next but its round-robin position.
+func RefProxyLab(ch Chain, backends int) (*ProxyLab, error) {
+	key := fmt.Sprintf("%s|%s|%d", strings.Join(ch.Before, ","), strings.Join(ch.After, ","), backends)
+	refMu.Lock()
+	defer refMu.Unlock()
+	if l := refProxyLabs[key]; l != nil {
+		return l, nil
+	}
+	pc, err := ch.Plugins(false)
+	if err != nil {
+		return nil, err
+	}
+	l, err := NewProxyLab(pc, backends)
+	if err == nil {
+		refProxyLabs[key] = l
+	}
+	return l, err
 }
 
 type proxyResult struct {
@@ -59,6 +94,14 @@ func (p *ProxyLab) accepts() int64 {
 
 // Run performs one exchange; when it returns the backends have finished handling it.
 func (p *ProxyLab) Run(c *ProxyCase) proxyResult {
+	r, stale := p.run(c)
+	if stale {
+		r, _ = p.run(c)
+	}
+	return r
+}
+
+func (p *ProxyLab) run(c *ProxyCase) (proxyResult, bool) {
 	l := p.L
 	caseID := l.NextCase()
 	req := c.Req
@@ -68,7 +111,8 @@ func (p *ProxyLab) Run(c *ProxyCase) proxyResult {
 	l.ExpectAll(caseID, &script)
 	defer l.ForgetAll(caseID)
 	var r proxyResult
-	r.out, r.err = lab.Do(l.Addr, &req, ioDeadline)
+	var stale bool
+	r.out, r.err, stale = p.Cli.Do(&req, ioDeadline)
 	// synchronisation only (not an oracle): let the backends finish reading an aborted upload
 	deadline := time.Now().Add(5 * time.Second)
 	for {
@@ -91,7 +135,7 @@ func (p *ProxyLab) Run(c *ProxyCase) proxyResult {
 		}
 	}
 	r.accepts = p.accepts() - before
-	return r
+	return r, stale
 }
 
 func (c *ProxyCase) bodyAllowed() bool {
@@ -184,7 +228,7 @@ func JudgeProxy(c *ProxyCase, with, without *ProxyLab, fresh bool, raceRetries *
 		r = with.Run(c)
 	}
 	got, err := r.out, r.err
-	if err != nil && got == nil {
+	if err != nil && (got == nil || strings.HasPrefix(err.Error(), "harness:")) {
 		v.Viol = "harness: " + err.Error()
 		return v
 	}
